@@ -47,3 +47,30 @@ func vNewWriter() (*bufio.Writer, *vWriter) {
 	w := &vWriter{failAt: -1}
 	return bufio.NewWriterSize(w, 128), w
 }
+
+type vLogger struct{}
+
+func (vLogger) Printf(format string, args ...interface{}) {}
+
+// vNewServerConn builds the connection state the stream loop works on,
+// without sockets or goroutines.
+func vNewServerConn() *serverConn {
+	sc := &serverConn{
+		writer:             make(chan *FrameHeader, 128),
+		reader:             make(chan *FrameHeader, 128),
+		writeStop:          make(chan struct{}),
+		logger:             vLogger{},
+		maxRequestBodySize: 1 << 20,
+		maxWindow:          1 << 22,
+		currentWindow:      1 << 22,
+		clientWindow:       int64(defaultWindowSize),
+	}
+	sc.enc.Reset()
+	sc.dec.Reset()
+	sc.enc.DisableCompression = true
+	sc.st.Reset()
+	// clientS stays the zero value until the client's first SETTINGS frame,
+	// exactly as ServeConn leaves it
+	return sc
+}
+
